@@ -15,8 +15,12 @@ import json
 import re
 import sys
 
-chk = json.load(open(sys.argv[1]))
-orc = json.load(open(sys.argv[2]))
+MD = '--md' in sys.argv
+args = [a for a in sys.argv[1:] if a != '--md']
+chk = json.load(open(args[0]))
+orc = {}
+for f in args[1:]:
+    orc.update(json.load(open(f)))
 
 
 def name(k):
@@ -43,6 +47,26 @@ for n in sorted(set(C) & set(O), key=lambda s: [int(x) if x.isdigit() else x for
             fa[p].append((n, C[n][p]['first'][:150]))
         if bad and not fired:
             miss[p].append((n, O[n].get(p + ':tests', [])[:3]))
+if MD:
+    print('# Cross-property audit (rendered by selftest/audit.py --md; see DESIGN.md 10.4)\n')
+    print('Static checks (selftest/matrix.py) against the dynamic oracles (selftest/oracle_matrix.py), per stored change and per property '
+          'anchored in the files the change touches.\n')
+    print('* agreed violations: %d\n* agreed non-violations: %d\n* check fires, oracle passes: %d\n* check silent, oracle fails: %d\n'
+          % (tab[(True, True)], tab[(False, False)], tab[(True, False)], tab[(False, True)]))
+    print('An oracle is a lower bound on violations, so the third group is a reading list, not a list of false alarms. Category: '
+          '`own` = the change was written against this very property and its demonstration fails (the oracle does not try that history); '
+          '`fail-closed` = the analysis could not follow restructured code or lost an anchor and says so; '
+          '`rule` = an obligation of this property is not discharged on the changed code.\n')
+    print('| check | change | category | first violation reported |\n|---|---|---|---|')
+    for p in props:
+        for n, f in fa[p]:
+            cat = 'own' if n.startswith(p) else ('fail-closed' if re.search(r'\[(ANALYSIS|FLOOR|R-SUMMARY|CONTROL)\]|stuck|analysis failed|anchor|accumulators found|iteration domain|internal error', f) else 'rule')
+            print('| %s | %s | %s | %s |' % (p, n, cat, f.replace('violation:', '').strip().replace('|', '/')))
+    print('\n## check silent, oracle fails (changes written against another property)\n')
+    for p in props:
+        if miss[p]:
+            print('* %s: %s' % (p, ' '.join('%s%s' % (n, ' (own)' if n.startswith(p) else '') for n, _ in miss[p])))
+    sys.exit(0)
 print('agree violation %d | agree clean %d | check fires, oracle passes %d | check silent, oracle fails %d'
       % (tab[(True, True)], tab[(False, False)], tab[(True, False)], tab[(False, True)]))
 print('\n== check fires, oracle passes (candidate false alarms), by property of the check')
